@@ -35,6 +35,9 @@ def test_nl(u):
 
 def z_cover(rng, n_rand, stiff):
     zs = [0.0, 1e-8, -1e-8, 1e-3j, -1.0, 1.0, 1j, -1j, -0.5, 0.25j, -2 + 1j, -0.3 - 2j, 3j, -7.0, 2.0]
+    # full and half periods of the propagator: exp(z) = 1 resp. exp(z/2) = -1 with z != 0 (a coefficient derived by dividing by exp(z/2) + 1
+    # or exp(z) - 1 instead of the contour mean is 0/0 there)
+    zs += [2j * np.pi, -2j * np.pi, 6j * np.pi, 4j * np.pi, 2j * np.pi * (1 + 1e-9)]
     # points where an un-shifted 16-point contour of radius 1 would pass through the origin
     zs += [-np.exp(2j * np.pi * k / 16) for k in (1, 3, 6)]
     for _ in range(n_rand):
